@@ -166,6 +166,14 @@ def derives(engine, x, src, depth=6):
     for ev in engine.events.values():
         if ev.ret is not None and any(y == ev.ret for y in walk(x)):
             if any(derives(engine, a, src, depth - 1) for a in ev.args): return True
+            if ev.argvals and any(av is not None and derives(engine, av, src, depth - 1) for av in ev.argvals): return True
     if x[0] == 'phi':
         return any(derives(engine, o, src, depth - 1) for o in engine.phi_ops.get(x, ()))
+    if x[0] == 'sym' and x[1] and x[1][0] == 'havoc' and len(x[1]) >= 3:
+        # the value of a place after it was lent mutably to an opaque call: it derives from what
+        # the place held before the call
+        ev = engine.events.get(x[1][1])
+        i = x[1][2]
+        if ev is not None and isinstance(i, int) and ev.argvals and i < len(ev.argvals) and ev.argvals[i] is not None:
+            return derives(engine, ev.argvals[i], src, depth - 1)
     return False
